@@ -27,7 +27,16 @@ func NewFunction(scanner parser.Scanner, arg Pattern, body Expr) Expr {
 // function, returns expr. Otherwise, returns expr wrapper in a function with
 // arg '.'.
 func ExprAsFunction(expr Expr) *Function {
-	if fn, ok := expr.(*Function); ok {
+	// Parentheses around a function literal do not change what it is.
+	inner := expr
+	for {
+		paren, is := inner.(ExprExpr)
+		if !is {
+			break
+		}
+		inner = paren.Expr
+	}
+	if fn, ok := inner.(*Function); ok {
 		return fn
 	}
 	return NewFunction(expr.Source(), IdentPattern("."), expr).(*Function)
